@@ -19,6 +19,16 @@ theorem rightS_length_one : ∀ (frs : List Frame) (adds : List (List Node)), fr
   | _ :: _, [], _, h => absurd rfl h
   | _ :: _, _ :: _, _, _ => rfl
 
+theorem rightS_size_ge : ∀ (frs : List Frame) (adds : List (List Node)), frs.length = adds.length →
+    2 * frs.length ≤ fsize (rightS frs adds)
+  | [], _, _ => by simp
+  | _ :: _, [], h => by simp at h
+  | fr :: frs, add :: adds, h => by
+    simp only [List.length_cons, Nat.add_right_cancel_iff] at h
+    have := rightS_size_ge frs adds h
+    simp only [rightS, Frame.node, fsize_cons, fsize_nil, Node.size_elem, fsize_append, List.length_cons]
+    omega
+
 theorem addOf_textFree (S : Schema) (mv : RPos) (d : Nat) : textFreeKids (addOf S mv d) = true := by
   unfold addOf
   split
@@ -76,6 +86,7 @@ theorem close_core (S : Schema) (hdet : DetS S) (hleaf : LeafOk S) (hfl : Filler
       tokAligned ((ftoks K).take f ++ (ftoks G ++ Xn) ++ (ftoks K).drop T) (f + (ftoks G ++ Xn).length) = true) :
     ∃ (ffsB : List Frame) (fills : List (List Node)) (tail : List Node) (b : Nat),
       ffsB.length = fills.length ∧ (∀ x ∈ fills, textFreeKids x = true) ∧ textFreeKids tail = true ∧
+      2 * b ≤ fsize tail ∧
       normalizeOpen (rf.depth + 1) placed rf.depth mv.depth = (leftS ffsB fills X0 ++ tail, ffsB.length, b) ∧
       ∃ X, replaceKids S ty0 K f mv.pos ⟨leftS ffsB fills G ++ tail, ffsB.length, b⟩ = .ok X := by
   have hlen0 := hF.1
@@ -218,8 +229,13 @@ theorem close_core (S : Schema) (hdet : DetS S) (hleaf : LeafOk S) (hfl : Filler
         ((roFrom S lv.move lv.depth (lv.move.depth - lv.depth)).map (·.2))) = true := by
     rw [textFreeKids_append, htfit, rightS_textFree _ _ htfA]; rfl
   rw [PM.FromDom.fappend_notText _ _ (textFree_notText_all htft)] at hmerged
-  refine ⟨framesFrom rf lv.depth (rf.depth - lv.depth), fills, _, lv.move.depth - lv.depth, ?_, htfF, htft, ?_, ?_⟩
+  refine ⟨framesFrom rf lv.depth (rf.depth - lv.depth), fills, _, lv.move.depth - lv.depth, ?_, htfF, htft, ?_, ?_, ?_⟩
   · rw [framesFrom_length, hfl1]
+  · have := rightS_size_ge ((roFrom S lv.move lv.depth (lv.move.depth - lv.depth)).map (·.1))
+      ((roFrom S lv.move lv.depth (lv.move.depth - lv.depth)).map (·.2)) (by simp)
+    rw [List.length_map, roFrom_length] at this
+    rw [fsize_append]
+    omega
   · rw [framesFrom_length]
     rw [List.append_assoc] at hnorm
     exact hnorm
@@ -258,7 +274,7 @@ theorem close_replace_applies (S : Schema) (hdet : DetS S) (hleaf : LeafOk S) (h
   have hbLok := botLOK_of_sig S hdet hleaf hf hv _ qD hcmD hsL'
   have hKn := ftoks_highClosed K hhc
   rw [hpl0] at hcf
-  obtain ⟨ffsB, fills, tail, b, _, _, _, hnorm, X, hX⟩ := close_core S hdet hleaf hfl hcl hts hjc hro hf htg hv hn hattrs
+  obtain ⟨ffsB, fills, tail, b, _, _, _, _, hnorm, X, hX⟩ := close_core S hdet hleaf hfl hcl hts hjc hro hf htg hv hn hattrs
     hpf hpt hft st0.frontier qD [] hF hqtop mv placed hcf [] _ (by simp [fnorm, chainOk]) (by simpa using htkL) hnL hkL hbLok
     (fun Xn T hXn hfT hT => by
       have haf : tokAligned (ftoks K) f = true := by
